@@ -1327,6 +1327,33 @@ _dbus_decompose_path (const char*     data,
   return TRUE;
 }
 
+#ifdef DBUS_VERIF
+/* Verification hook H2 (read-only): the tree as nested (name handler
+ * fallback children...) groups, children in the order the tree keeps them. */
+static dbus_bool_t
+verif_dump_subtree (DBusObjectSubtree *subtree,
+                    DBusString        *out)
+{
+  int i;
+
+  if (!_dbus_string_append_printf (out, "(%s:%d%d", subtree->name[0] ? subtree->name : "/",
+                                   subtree->message_function != NULL,
+                                   (int) subtree->invoke_as_fallback))
+    return FALSE;
+  for (i = 0; i < subtree->n_subtrees; i++)
+    if (!verif_dump_subtree (subtree->subtrees[i], out))
+      return FALSE;
+  return _dbus_string_append (out, ")");
+}
+
+dbus_bool_t
+_dbus_verif_object_tree_dump (DBusObjectTree *tree,
+                              DBusString     *out)
+{
+  return verif_dump_subtree (tree->root, out);
+}
+#endif
+
 /** @} */
 
 static char*
